@@ -54,6 +54,7 @@ var (
 	SiteWHeader    = RegSite("writer.WriteHeader")
 	SiteWWrite     = RegSite("writer.Write")
 	SiteWFlush     = RegSite("writer.Flush")
+	SiteSleep      = RegSite("time.Sleep")
 	SiteWHijack    = RegSite("writer.Hijack")
 	SiteConnWrite  = RegSite("conn.Write")
 	SiteBRead      = RegSite("body.Read")
@@ -151,7 +152,7 @@ func (t *Task) park() uint64 {
 // scheduler's control, runs freely, and its yields are no-ops that are merely counted: the run is then
 // flagged as not reproducible and the process is not reused.
 func (t *Task) Yield(site Site, kind uint8, a, b uint64) uint64 {
-	if int64(runtime.NumGoroutine()) > expectedG.Load() && taskGID(t) != goid() {
+	if (MayFork || UsesClock) && taskGID(t) != goid() {
 		foreignYields.Add(1)
 		if kind == KBlocked || kind == KWouldBlock {
 			runtime.Gosched() // a wait loop of a free-running goroutine: let the others move
@@ -163,9 +164,45 @@ func (t *Task) Yield(site Site, kind uint8, a, b uint64) uint64 {
 	return t.park()
 }
 
-// expectedG is the number of goroutines the process has while only tasks and harness goroutines
-// exist; the goroutine id is parsed (a microsecond) only when there are more.
-var expectedG atomic.Int64
+// The simulated clock (only read by trees whose time.Now / Since / Until / Sleep calls were rewritten by
+// the instrumentation pass): 10 microseconds per step, whatever time.Sleep adds, and - when the tree
+// uses the clock at all - jumps drawn from the schedule stream (a millisecond to a day and more).
+var clockEpoch = time.Date(2030, 1, 1, 0, 0, 0, 0, time.UTC)
+var clockOffset time.Duration
+
+// UsesClock is set by the worker when the instrumented tree reads the clock.
+var UsesClock bool
+
+// MayFork is set by the worker when the instrumented tree contains go statements (timers fork too):
+// only then is the goroutine id checked at every yield (2 microseconds each).
+var MayFork bool
+
+//go:norace
+func clockNow() time.Duration { return clockOffset }
+
+//go:norace
+func clockAdvance(d time.Duration) {
+	if d > 0 {
+		clockOffset += d
+	}
+}
+
+//go:norace
+func clockReset() { clockOffset = 0 }
+
+// Own returns the current task if the caller runs on that task's goroutine, nil otherwise (harness
+// callbacks reached from a goroutine the library started must not touch task state).
+func Own() *Task {
+	t := Cur()
+	if t == nil {
+		return nil
+	}
+	if (MayFork || UsesClock) && taskGID(t) != goid() {
+		foreignYields.Add(1)
+		return nil
+	}
+	return t
+}
 
 // foreignYields counts schedule points reached by goroutines that are no task (see Yield).
 var foreignYields atomic.Int64
@@ -298,6 +335,8 @@ type Sim struct {
 }
 
 func NewSim(tape *Tape) *Sim {
+	clockReset()
+	timersReset()
 	s := &Sim{Tape: tape, Preempt: 100, MaxSteps: 20000, PCTLen: 150, Counts: map[string]int{}, pendingW: map[uint64]map[int]bool{}}
 	s.Ledger = newLedger(s)
 	s.traceHash = 1469598103934665603
@@ -405,7 +444,6 @@ func (s *Sim) Run() bool {
 	for _, t := range s.Tasks {
 		go t.main()
 	}
-	expectedG.Store(int64(runtime.NumGoroutine()))
 	foreignAtStart := foreignYields.Load()
 	patience := 0
 	var cur *Task
@@ -454,6 +492,19 @@ func (s *Sim) Run() bool {
 			}
 			if s.Abnormal != "" {
 				break
+			}
+			if !progressed && UsesClock {
+				// everybody waits: the only thing that can still happen by itself is a timer
+				if _, pending, next := timersFire(); pending > 0 {
+					if d := next - clockNow(); d > 0 {
+						clockAdvance(d)
+					}
+					if fired, _, _ := timersFire(); fired > 0 {
+						s.Counts["timers-fired"] += fired
+						time.Sleep(200 * time.Microsecond) // the fired function runs on a goroutine of its own
+						continue
+					}
+				}
 			}
 			if !progressed && foreignYields.Load() > foreignAtStart && patience < 400 {
 				// goroutines outside the scheduler's control exist in this run: what the tasks wait for may
@@ -572,6 +623,16 @@ func (s *Sim) lastSite(t *Task) Site {
 // made progress (anything but a failed lock probe).
 func (s *Sim) stepTask(t *Task) bool {
 	s.Step++
+	clockAdvance(10 * time.Microsecond)
+	if UsesClock && s.Tape.SBool(25) {
+		clockAdvance([]time.Duration{time.Millisecond, time.Second, time.Minute, time.Hour, 25 * time.Hour, 40 * 24 * time.Hour}[s.Tape.S(6)])
+		s.Counts["fault-clock-jump"]++
+	}
+	if UsesClock {
+		if fired, _, _ := timersFire(); fired > 0 {
+			s.Counts["timers-fired"] += fired
+		}
+	}
 	cmd := uint64(CmdGo)
 	if (t.lastKind == KLockYield || t.lastKind == KBlocked) && !t.lockW {
 		// Go documents that a blocked Lock excludes new readers; a failing write probe stands for
@@ -642,7 +703,6 @@ func (s *Sim) stepTask(t *Task) bool {
 		s.Ledger.checkpoint(t)
 	case KDone:
 		t.state = stDone
-		expectedG.Add(-1)
 		s.Ledger.checkpoint(t)
 	default:
 		panic(fmt.Sprintf("sim: unknown message kind %d", m.Kind))
